@@ -2,7 +2,7 @@
 import math
 import numpy as np
 import impl
-from gen import grid, data
+from gen import grid, data, special, unc, unc_relative
 from .common import arr, tolist
 
 LEAN = "PystogVerif.Props.C02"
@@ -10,16 +10,24 @@ ENTRIES = ["Transformer.fourier_transform", "Transformer.G_to_F", "Transformer.F
 RULE = ("random strictly increasing input grid (uniform / jittered / irregular / centi-lattice, 2..60 points, thorough ..600), "
         "random output grid that always contains 0, a negative point and a repeated point, data family, second data vector "
         "and coefficients for linearity; non-trivial = >= 3 input points and data not all zero")
-DIST = ["grid", "data", "has_fortran"]
+DIST = ["grid", "data", "has_fortran", "unc"]
 SHRINK = None
 
 
 def gen(rng, i, tier):
     n = int(rng.integers(2, 60 if tier == "quick" else 600))
-    x, gk = grid(rng, n=n)
+    x, gk = grid(rng, n=n, extra=0.3)
     y, dk = data(rng, x)
+    y = special(rng, y)        # exact zeros in the data, often at the ends
     z, _ = data(rng, x)
+    # "every data vector": the values may not depend on whether / which uncertainties accompany the data
+    r = rng.random()
+    dy = None if r < 0.4 else (unc_relative(rng, y) if r < 0.7 else unc(rng, x, allow_none=False))
     xo, _ = grid(rng, n=int(rng.integers(1, 10)) + 1)
+    if gk.startswith("tiny"):
+        xo = xo * 1e9          # conjugate units, so that x*x' stays of order one
+    elif gk.startswith("huge"):
+        xo = xo * 1e-5
     xo = np.concatenate([[0.0, -float(xo[-1]) / 3, float(xo[0])], xo])
     fort = None
     if rng.random() < 0.3:
@@ -27,8 +35,8 @@ def gen(rng, i, tier):
         q0, dq = float(rng.uniform(0.1, 1.0)), float(rng.uniform(0.02, 0.3))
         fort = dict(q=tolist(q0 + dq * np.arange(nq)), s=tolist(1 + data(rng, np.arange(nq, dtype=float), kind="smooth")[0]),
                     nr=int(rng.integers(2, 25)), delr=float(rng.uniform(0.02, 0.4)), rho=float(10 ** rng.uniform(-2, 0)))
-    return dict(x=tolist(x), y=tolist(y), z=tolist(z), xo=tolist(xo), a=float(rng.normal()), b=float(rng.normal() * 3),
-                grid=gk, data=dk, fort=fort, has_fortran=fort is not None)
+    return dict(x=tolist(x), y=tolist(y), z=tolist(z), xo=tolist(xo), a=float(rng.normal()), b=float(rng.normal() * 3), dy=tolist(dy),
+                grid=gk, data=dk, fort=fort, has_fortran=fort is not None, unc="none" if dy is None else "given")
 
 
 def weights(x):
@@ -49,7 +57,8 @@ def evaluate(case):
     x, y, z, xo = arr(case["x"]), arr(case["y"]), arr(case["z"]), arr(case["xo"])
     a, b = case["a"], case["b"]
     fails = []
-    xr, v, e = tr.fourier_transform(x, y, xo)
+    dy = arr(case.get("dy"))
+    xr, v, e = tr.fourier_transform(x, y, xo, dy_in=dy)
     v = np.asarray(v, dtype=float)
     if not np.array_equal(np.asarray(xr), xo):
         fails.append("fourier_transform: output abscissae changed")
@@ -60,6 +69,10 @@ def evaluate(case):
         if abs(v[k] - ref) > 1e-9 * sc:
             fails.append(f"fourier_transform: value at x'={t!r} is {v[k]!r}, trapezoid sine quadrature gives {ref!r}")
             break
+    if dy is not None:
+        _, vn, _ = tr.fourier_transform(x, y, xo)
+        if not np.array_equal(np.asarray(vn), v):
+            fails.append("fourier_transform: the values depend on the uncertainties supplied with the data")
     if v[0] != 0.0:
         fails.append(f"fourier_transform: value at x'=0 is {v[0]!r}, expected exactly 0")
     _, vm, _ = tr.fourier_transform(x, y, -xo)
